@@ -37,7 +37,7 @@ if ref:
         r = res.get(name, {})
         alarms = [p for p, v in r.get("checks", {}).items() if v.get("exit") != 0]
         cell = lambda s: str(s).replace("|", "/").replace("\n", " ")[:300]
-        out.append(f"| {name} | {cell(m.get('summary',''))} | {m.get('numerically_identical')} | {', '.join(r.get('checks', {}))} | {'ALARM: ' + ', '.join(alarms) if alarms else 'no'} |")
+        out.append(f"| {name} | {cell(m.get('summary',''))} | {m.get('numerically_identical')} | {', '.join(r.get('checks', {}))} | {('ALARM: ' + ', '.join(alarms) + ' — ' + cell(m.get('verdict', 'see DESIGN 10.3b'))) if alarms else 'no'} |")
     out.append("")
 text = "\n".join(out)
 p = os.path.join(V, "DESIGN.md")
